@@ -78,6 +78,8 @@ TypeOf(name) ==
       [] name = "F33" -> Struct(<<Fld(<<119>>, "elem", F32T)>>)
       [] name = "F34" -> Struct(<<Fld(<<112>>, "elem", List(NUM)), Fld(<<120>>, "elem", List(NUM)), Fld(<<113>>, "elem", List(NUM))>>)   \* p is a PAIR (fixed size)
             \* list items that hold a STRUCT-valued (non-list) field: reading it re-enters the top-level struct path of the deserializer
+            \* list items that collect their content in a `$value` list of their own, next to another list
+      [] name = "F36" -> Struct(<<Fld(n_a, "elem", List(Struct(<<Fld(n_value, "value", List(CHOICE))>>))), Fld(n_b, "elem", List(NUM))>>)
       [] name = "F35" -> Struct(<<Fld(n_a, "elem", List(STR)), Fld(n_b, "elem", List(Struct(<<Fld(<<109>>, "elem", Struct(<<Fld(<<120>>, "elem", STR)>>))>>))), Fld(n_d, "elem", List(NUM))>>)
       [] name = "H01" -> Struct(<<Fld(n_m, "elem", [t |-> "map"])>>)
       [] name = "H07" -> Struct(<<Fld(n_value, "value", List(Opt(CHOICE)))>>)     \* items that may write nothing inside mixed content
@@ -104,6 +106,7 @@ RootBytes(name) ==
       [] name = "F26" -> <<70,50,54>>
       [] name = "F29" -> <<70,50,57>>
       [] name = "F35" -> <<70,51,53>>
+      [] name = "F36" -> <<70,51,54>>
       [] name = "F30" -> <<70,51,48>>
       [] name = "F31" -> <<70,51,49>>
       [] name = "F32" -> <<70,51,50>>
@@ -129,7 +132,7 @@ StrRT == { <<12, 112, 12>>, <<196,162,196,166,196,167,196,188,196,190>>, <<97, 2
 StrSmall == { <<>>, <<97>>, <<60>> }
 StrHostile == StrRT \cup { <<32>>, <<32, 97>>, <<10>>, <<0>>, <<62>>, <<60, 97, 62>> }
 \* items of space-separated lists: non-empty, no XML whitespace (src/de/mod.rs docs)
-StrItem == { <<97>>, <<60>>, <<38>>, <<195, 169>>, <<34>>, <<97, 12, 98>> }      \* (FORM FEED is an ordinary character of an item)
+StrItem == { <<97>>, <<60>>, <<38>>, <<195, 169>>, <<34>>, <<97, 12, 98>>, <<97, 9, 98>> }      \* (FORM FEED is an ordinary character of an item; an inner TAB is written as a character reference and only the blank separates items)
 \* In ATTRIBUTE position the serializer writes white space inside an item as character references and the deserializer splits
 \* before unescaping, so such items come back; in text position the text is unescaped first (the module documentation says
 \* list items never contain white space), so they are generated for attribute lists only.
@@ -204,6 +207,9 @@ ValuesOf(name, Pl, mode) ==       \* mode "rt": the documented round-trippable d
       [] name = "F29" -> {O(<<<<n_a, A(xs)>>, <<n_b, A(ys)>>, <<n_d, A(zs)>>>>) :
                             xs \in Seqs({S(<<97>>)}, 2),
                             ys \in Seqs({O(<<<<n_b, A(w)>>>>) : w \in {<<S(<<120>>)>>, <<S(<<120>>), S(<<60>>)>>}}, 2), zs \in Seqs({Nm(<<55>>)}, 2)}
+      [] name = "F36" -> {O(<<<<n_a, A(xs)>>, <<n_b, A(zs)>>>>) :
+                            xs \in Seqs({O(<<<<n_value, A(w)>>>>) : w \in {<<[u |-> n_One]>>, <<[u |-> n_Two], [u |-> n_One]>>}}, 2),
+                            zs \in Seqs({Nm(<<55>>), Nm(<<49>>)}, 2)}
       [] name = "F35" -> {O(<<<<n_a, A(xs)>>, <<n_b, A(ys)>>, <<n_d, A(zs)>>>>) :
                             xs \in Seqs({S(<<97>>)}, 2),
                             ys \in Seqs({O(<<<<<<109>>, O(<<<<<<120>>, S(w)>>>>)>>>>) : w \in {<<120>>, <<60>>}}, 2), zs \in Seqs({Nm(<<55>>)}, 2)}
@@ -232,5 +238,5 @@ ValuesOf(name, Pl, mode) ==       \* mode "rt": the documented round-trippable d
 \* root tags passed to the serializer (to_string_with_root); the default is the type name
 HostileRoots == { <<120, 46, 121>>, <<120, 45, 49>>, <<120, 194, 183>>, <<97, 47>>, <<97, 47, 98>>, <<>>, <<60>>, <<97, 32, 98>>, <<49, 97>>, <<97, 62>>, <<195, 169>>, <<120, 58, 121>>, <<45, 97>>, <<114>> }
 
-RTTypes == {"F01", "F02", "F03", "F04", "F05", "F07", "F08", "F11", "F15", "F16", "F17", "F18", "F19", "F20", "F22", "F23", "F24", "F25", "F26", "F27", "F28", "F29", "F30", "F31", "F32", "F33", "F34", "F35"}
+RTTypes == {"F01", "F02", "F03", "F04", "F05", "F07", "F08", "F11", "F15", "F16", "F17", "F18", "F19", "F20", "F22", "F23", "F24", "F25", "F26", "F27", "F28", "F29", "F30", "F31", "F32", "F33", "F34", "F35", "F36"}
 =============================================================================
